@@ -37,7 +37,7 @@ namespace c16b
     typedef Analytic::Image::Vector<N> ImageType;
     static constexpr bool can_value = true;
     static constexpr bool can_grad = true;
-    static constexpr bool can_hess = false;
+    static constexpr bool can_hess = true;
     std::array<Poly<D>, N> p;
     explicit PolyVectorFunction(const std::array<Poly<D>, N>& p_) : p(p_) {}
     template<typename Traits_>
@@ -47,6 +47,7 @@ namespace c16b
       typedef typename Traits_::PointType PointType;
       typedef typename Traits_::ValueType ValueType;
       typedef typename Traits_::GradientType GradientType;
+      typedef typename Traits_::HessianType HessianType;
       const PolyVectorFunction& f;
       explicit Evaluator(const PolyVectorFunction& f_) : f(f_) {}
       ValueType value(const PointType& x)
@@ -61,6 +62,12 @@ namespace c16b
         for(int i = 0; i < N; ++i) for(int j = 0; j < D; ++j) r[i][j] = double(f.p[(size_t)i].diff(j).eval(x.v));
         return r;
       }
+      HessianType hessian(const PointType& x)
+      {
+        HessianType r;
+        for(int i = 0; i < N; ++i) for(int j = 0; j < D; ++j) for(int k = 0; k < D; ++k) r[i][j][k] = double(f.p[(size_t)i].diff(j).diff(k).eval(x.v));
+        return r;
+      }
     };
   };
 
@@ -68,6 +75,9 @@ namespace c16b
 
   template<int BH, int BW> using BCSR = LAFEM::SparseMatrixBCSR<double, Index, BH, BW>;
   template<int N> using BVec = LAFEM::DenseVectorBlocked<double, Index, N>;
+
+  inline LD vcomp(const Vec& v, Index i, int) { return LD(v(i)); }
+  template<int N> LD vcomp(const BVec<N>& v, Index i, int a) { return LD(v(i)[a]); }
 
   /// y^T A x for a BCSR<BH,BW> matrix with blocked (BH>1) or scalar (BH==1) y and x
   template<int BH, int BW, typename Y_, typename X_>
@@ -79,9 +89,7 @@ namespace c16b
       for(Index k = rp[i]; k < rp[i + 1]; ++k)
         for(int a = 0; a < BH; ++a) for(int b = 0; b < BW; ++b)
         {
-          LD yv, xv;
-          if constexpr(BH == 1) yv = LD(y(i)); else yv = LD(y(i)[a]);
-          if constexpr(BW == 1) xv = LD(x(ci[k])); else xv = LD(x(ci[k])[b]);
+          LD yv = vcomp(y, i, a), xv = vcomp(x, ci[k], b);
           LD t = yv * LD(va[k][a][b]) * xv;
           s += t; sc += std::fabs(t);
         }
